@@ -169,6 +169,90 @@ def describe(case):
     return nontrivial, classes
 
 
+LARGE_SIZES = [255, 256, 257, 4095, 4096, 4097, 32767, 32768, 46340, 46341, 46342, 65535, 65536, 65537, 100003, 140000]
+
+
+def judge_large(case):
+    """Large sparse models (sizes around powers of two and around sqrt(2^31), where index arithmetic changes regime):
+    ring plus chords, entries compared with the formula evaluated on the edge list (int64 / float64 throughout)."""
+    from molgri.molecules.transitions import SQRA
+    n, T, D = int(case["n"]), float(case["T"]), float(case["D"])
+    rng = np.random.default_rng(int(case["rng"]))
+    i = np.arange(n, dtype=np.int64)
+    a = np.concatenate([i, rng.integers(0, n, size=n // 2)])
+    b = np.concatenate([(i + 1) % n, rng.integers(0, n, size=n // 2)])
+    keep = a != b
+    lo, hi = np.minimum(a[keep], b[keep]), np.maximum(a[keep], b[keep])
+    und = np.unique(lo * n + hi)
+    lo, hi = und // n, und % n
+    m = len(lo)
+    s_half, h_half = rng.uniform(0.5, 3.0, size=m), rng.uniform(0.5, 2.0, size=m)
+    rows, cols = np.concatenate([lo, hi]), np.concatenate([hi, lo])
+    order = np.lexsort((cols, rows))           # row-major entry order, the same for S and h
+    rows, cols = rows[order], cols[order]
+    sv, hv = np.concatenate([s_half, s_half])[order], np.concatenate([h_half, h_half])[order]
+    V = rng.uniform(0.5, 4.0, size=n)
+    E = rng.normal(0, float(case["sigma"]), size=n)
+    idt = np.dtype(case["index_dtype"])
+
+    def build(vals):
+        coo = coo_array((vals.copy(), (rows.astype(idt), cols.astype(idt))), shape=(n, n))
+        return coo.tocsr() if case["form"] == "csr" else coo
+    try:
+        with quiet():
+            out = SQRA(energies=E.copy(), volumes=V.copy(), distances=build(hv), surfaces=build(sv)).get_rate_matrix(D=D, T=T)
+    except Exception as e:
+        return [f"exception {type(e).__name__}: {e}"]
+    if out.shape != (n, n):
+        return [f"shape {out.shape}"]
+    got = out.tocoo()
+    gr, gc, gd = got.row.astype(np.int64), got.col.astype(np.int64), np.asarray(got.data, dtype=float)
+    offd = gr != gc
+    dE = E[rows] - E[cols]
+    want = D * sv / (hv * V[rows]) * np.exp(np.where(dE < CAP, dE, CAP) / (2 * R_KJ * T))
+    key_w, key_g = rows * n + cols, gr[offd] * n + gc[offd]
+    og = np.argsort(key_g, kind="stable")
+    key_g, val_g = key_g[og], gd[offd][og]
+    nz = val_g != 0
+    key_g, val_g = key_g[nz], val_g[nz]
+    msgs = []
+    if len(key_g) != len(key_w) or not np.array_equal(key_g, key_w):
+        return [f"n={n}: off-diagonal pattern of the result differs from the pattern of S ({len(key_g)} vs {len(key_w)} entries)"]
+    bad = ~np.isclose(val_g, want, rtol=1e-10, atol=TINY)
+    if bad.any():
+        k = int(np.argmax(bad))
+        msgs.append(f"n={n} ({case['form']}, {case['index_dtype']} indices): {int(bad.sum())} entries deviate, e.g. "
+                    f"Q[{rows[k]},{cols[k]}]={val_g[k]!r} but the formula gives {want[k]!r}")
+    rs = np.asarray(out.sum(axis=1)).ravel()
+    scale = np.asarray(abs(out).sum(axis=1)).ravel()
+    if np.any(np.abs(rs) > 1e-10 * scale + 1e-300):
+        msgs.append(f"n={n}: row {int(np.argmax(np.abs(rs) - 1e-10 * scale))} does not sum to zero")
+    return msgs
+
+
+def _large_shard(arg):
+    shard, n_examples = arg
+    from hypothesis import given, strategies as st
+
+    def builder(res, fail):
+        @given(st.fixed_dictionaries({
+            "large": st.just(True), "n": st.sampled_from(LARGE_SIZES), "rng": st.integers(0, 2 ** 31),
+            "T": st.sampled_from([150.0, 300.0, 1000.0]), "D": st.sampled_from([1.0, 0.013, 250.0]),
+            "sigma": st.sampled_from([0.0, 2.0, 40.0]), "form": st.sampled_from(["csr", "coo"]),
+            "index_dtype": st.sampled_from(["int32", "int32", "int64"])}))
+        def test(case):
+            msgs = judge_large(case)
+            res.case(sample=case, nontrivial=case["sigma"] > 0, key=case,
+                     classes=["large_sparse_model", f"index={case['index_dtype']}"]
+                     + (["n*n>=2^31"] if case["n"] ** 2 >= 2 ** 31 else []))
+            if msgs:
+                fail(case, "; ".join(msgs))
+        return test
+    res = Result()
+    run_hypothesis(builder, res, 500 + shard, n_examples, shrink=False)
+    return res
+
+
 def _hyp_shard(arg):
     shard, n_examples = arg
     from hypothesis import given, strategies as st
@@ -261,17 +345,22 @@ def _hyp_shard(arg):
 
 
 def replay(case):
+    if case.get("large"):
+        return judge_large(case)
     return judge(case)
 
 
 def run(tier):
     total, shards = (8000, 16) if tier == "quick" else (160000, 16)
-    res = merge_results(pmap(_hyp_shard, [(s, total // shards) for s in range(shards)]))
+    results = pmap(_hyp_shard, [(s, total // shards) for s in range(shards)])
+    results += pmap(_large_shard, [(s, 4 if tier == "quick" else 40) for s in range(shards)])
+    res = merge_results(results)
     rule = ("Hypothesis: n in 2..14, symmetric patterns (random density / path / star / two components / empty), S,h,V "
             "log-uniform in [1e-3,1e3], energies equal / sigma-small / large / with a forced adjacent pair at or beyond the "
             "500 kJ/mol cap, T in [1,2000] K raised only as far as needed to keep the capped exponent < 600, D in [1e-6,1e3], "
             "storage csr / coo+coo / row-major coo / mixed, V and E as float64 or as integer-valued arrays of an integer "
-            "dtype. Non-trivial = at least one edge and not all energies equal; "
+            "dtype; plus large sparse models (ring + chords, n around powers of two up to 140000 and around sqrt(2^31), csr / coo, "
+            f"int32 / int64 indices; sizes {LARGE_SIZES}) compared entry by entry with the formula. Non-trivial = at least one edge and not all energies equal; "
             "distinct = distinct full input.")
     return res, rule, {"assumptions": ["S and h share one pattern with empty diagonal and no explicitly stored zeros",
                                        "T large enough that exp(min(dE,500)/(2RT)) is finite in float64"]}
